@@ -34,7 +34,8 @@ Record mon := {
   m_now : N; m_height : N;
   m_viol : N;          (* bitmask of violated properties *)
   m_first : N;         (* 1-based step of the first violation *)
-  m_kf : N;            (* bit 0: a read RPC was answered with an injected error (class kf_read_error) *)
+  m_kf : N;            (* bit 0: a read RPC was answered with an injected error (class kf_read_error);
+                          bit 1: ... and that read belongs to the wait_payment inside pay() (KF-B, class kf_pay_wait_read_error) *)
   m_bad : bool;        (* environment contract violated by the trace itself (tooling error) *)
   m_stats : N          (* number of pay calls seen *)
 }.
@@ -78,6 +79,15 @@ Fixpoint mcall_put (cid : nat) (c : mcall) (l : list (nat * mcall)) : list (nat 
   | [] => [(cid, c)]
   | y :: r => if Nat.eqb (fst y) cid then (cid, c) :: r else y :: mcall_put cid c r
   end.
+
+(* is call [cid] of this hash part of the wait_payment that pay() falls back to? Every lifecycle starts with a state fetch
+   and reads only in its wait_payment; so: the nearest earlier call that is a state fetch or a pay request is a pay request *)
+Definition in_pay_wait (x : mhash) (cid : nat) : bool :=
+  let best := fold_left (fun acc c =>
+                 if Nat.ltb (fst c) cid && match mc_q (snd c) with QListState | QPay _ _ _ _ _ => true | _ => false end
+                 then match acc with Some b => if Nat.ltb (fst b) (fst c) then Some c else acc | None => Some c end
+                 else acc) (mh_calls x) None in
+  match best with Some c => match mc_q (snd c) with QPay _ _ _ _ _ => true | _ => false end | None => false end.
 
 Definition busy (n : node) : bool := existsb (fun p => match p with PFailed => false | _ => true end) (parts n).
 Definition hot (n : node) : bool := match ds n with Some (DPending _ _, _) | Some (DSucc _, _) => true | _ => false end.
@@ -154,6 +164,7 @@ Section Monitor.
                       | _, _ => x' end in
             let m1 := set_h m h x' in
             let m1 := if is_read q && match f with NoFault => false | _ => true end then set_kf m1 0 else m1 in
+            let m1 := if is_read q && match f with NoFault => false | _ => true end && in_pay_wait x cid then set_kf m1 1 else m1 in
             (* C08: an applied Free only when nothing is pending or complete; an applied Succeeded holds a preimage of the hash *)
             let applied := negb (option_eqb (pair_eqb dsval_eqb N.eqb) (ds (mh_nd x)) (ds n')) in
             let m1 := match q with
